@@ -101,6 +101,10 @@ class Prop(BaseProp):
         b.section_names = []
         b.reused_names = 0
         mod = b.module()
+        if idx % 40 == 6:
+            # scale: sections nested tens of levels deep
+            mod.items.insert(rng.randint(0, len(mod.items)), b.deep_sections(rng.choice([17, 24, 40])))
+            res.count("modules_with_deeply_nested_sections")
         text = render(mod, Layout(rng, comments=0.1, wild=0.2, case="random"))
         exp = expected_entries(mod)
         tgt = [e for e in exp if e.kind in ("ctest", "test", "section")]
